@@ -8,48 +8,8 @@ import sys
 ROOT = os.path.dirname(os.path.dirname(os.path.abspath(__file__)))
 
 # property -> (design section, level text, level note, technique)
-BUILT = {
-    "C02": ("4/C02",
-            "KeyLock.tla models the table (lookup-or-create, read/write counts, free at 0/0), Go's RWMutex "
-            "protocol (writer announce + drain; alternative policy Any), per-shard registration and "
-            "multi-key acquisition in (shard, list) order; TLC checks exclusion, reclaim, count accounting, "
-            "key independence and - with deadlock checking on - that consistently ordered duplicate-free "
-            "lists never deadlock (3 procs, 3 keys, 2 shards, all 7 ordered lists, both modes: 1.2M states); "
-            "rotated lists and a free-ignores-writers deviation are kept as non-vacuity witnesses. Schedules "
-            "(TLC plans + random) run step by step on all ten locker variants with global quiescence; the "
-            "observed held/parked/idle vectors are judged by the policy-free contract KeyLockObs.tla, where "
-            "TLC searches for the keys each parked multi-key caller already holds (compatible, monotone, "
-            "every parked caller justified); leftovers or parked callers at the end are rejected. "
-            "Free-running stress is judged on monitor events; a runtime fatal error inside neptune is a "
-            "crash event no action explains.",
-            "Exhaustive only within MC constants; schedules on real code are sampled. The contract does not "
-            "fix reader/writer preference. Trusted: TLC, runtime.Stack wait reasons, read-only verif accessors.",
-            "TLA+ spec + TLC exhaustive check (incl. deadlock) + step-by-step schedule replay with TLC trace validation"),
-    "C01": ("4/C01",
-            "Semap.tla (one action per hold of the map mutex: acquire, release with FIFO grant loop, "
-            "cancel-wake, cancel-resolve; entries have identities) is model-checked exhaustively (3 procs, "
-            "1 key, ratio 1..2; thorough 4 procs / 2 keys / ratio 1..3) for Exclusion, NoResidue, StaleFree, "
-            "token accounting, no-lost-grant, FIFO and hold-stability, plus liveness of cancellation under "
-            "fairness; the pinned release rule is kept as a deviation constant and shown to violate the "
-            "invariants. Plans from the spec and seeded random schedules run step by step on real goroutines "
-            "(global quiescence from runtime wait reasons; the cancel-vs-grant race is reached through a gate "
-            "hook); after every step the status of every worker and (present,cur,waiters) per key must equal "
-            "the spec's successor state. Free-running stress runs are judged on monitor events.",
-            "Exhaustive only within MC constants; schedules on real code are sampled. Trusted: TLC, "
-            "runtime.Stack wait reasons, the verif accessors (read-only, under the map mutex).",
-            "TLA+ spec + TLC exhaustive check + step-by-step schedule replay with TLC trace validation"),
-    "C04": ("4/C04",
-            "LRU.tla (list/table/size counter/eviction loop as in the code) is model-checked exhaustively for "
-            "3 keys x 4 sizes x 3 capacities, both charging modes (size never drifts from the true sum, "
-            "bound holds after every action, victims are strictly the least recent). Plans simulated from "
-            "the spec and seeded random histories are executed on cache.LRUCache, tiny.LRUCache and the four "
-            "wide variants; every reply and the full Keys/Items/Stats projection after every call must be a "
-            "step of the spec (TLC trace validation); 3-thread histories are validated by linearization "
-            "search in TLC.",
-            "Exhaustive only within the MC constants; real code covered as far as plans/histories reach. "
-            "Trusted: TLC, the Go trace writer, the public remap index for per-shard routing.",
-            "TLA+ spec + TLC exhaustive check + TLC trace validation of recorded executions"),
-}
+_T = json.load(open(os.path.join(ROOT, "tools", "built.json")))
+BUILT = {k: (v["design_ref"], v["text"], v["note"], v["technique"]) for k, v in _T["built"].items()}
 
 NOT_BUILT_REASON = "check not built yet in this round (TLA+ design in DESIGN.md section 4); not claimed"
 
@@ -106,8 +66,8 @@ def main():
     sys.exit(subprocess.call(["python3-vt", "-c", code]))
 
 
-NA = {}
-HOOK_COMMITS = ["d87e89d", "79d964d"]
+NA = _T.get("not_applicable", {})
+HOOK_COMMITS = _T["hook_commits"]
 
 if __name__ == "__main__":
     main()
